@@ -24,7 +24,7 @@ LEVEL = "exploration"
 
 # ------------------------------------------------------------------------------------------- where
 
-HOWS = ("target", "target_absmix", "template", "template_wd", "map_none", "map_str", "map_func")
+HOWS = ("target", "target_absmix", "template", "template_wd", "map_none", "map_str", "map_func", "glob_template_wd")
 WF_WDS = ("inherit", "explicit_proj", "explicit_other")
 INVOKE = ("root", "nested", "unrelated_abs", "unrelated_rel", "objname", "symlink", "fname_gwf_nested", "fname_gwf_unrelated", "fname_dash_unrelated")
 
@@ -49,6 +49,13 @@ def wf_source(how, wf_wd, objname="gwf"):
         wd = ", working_dir=w.working_dir" if how == "template_wd" else ""
         lines += ["def tpl(i, o):", f"    return AnonymousTarget(inputs=[i], outputs=[o], options={{}}, spec='echo'{wd})",
                   f"w.target_from_template('A', tpl({src!r}, {a!r}))", f"w.target_from_template('B', tpl({a!r}, {b!r}))"]
+    elif how == "glob_template_wd":
+        # inputs found with Workflow.glob (patterns relative to the workflow's working directory) handed to template targets that have a
+        # working directory of their own
+        pat = lambda p: p[:-1] + "?"
+        lines += ["def tpl(i, o):", "    return AnonymousTarget(inputs=i, outputs=[o], options={}, spec='echo', working_dir=os.path.join(PROJ, 'nested'))",
+                  f"w.target_from_template('A', tpl(w.glob({pat(src)!r}), os.path.join(PROJ, 'data', 'a')))",
+                  f"w.target_from_template('B', tpl(list(w.iglob({pat(a)!r})), os.path.join(PROJ, 'b')))"]
     else:
         lines += ["def tpl(i, o):", "    return AnonymousTarget(inputs=[i], outputs=[o], options={}, spec='echo')"]
         name = {"map_none": "", "map_str": ", name='m'", "map_func": ", name=lambda idx, t: 'f%d' % idx"}[how]
@@ -72,7 +79,7 @@ class RawWorkflow(W.Workflow):
 
 def where_batch(acc, batch):
     for how, wf_wd in batch:
-        names = {"target": ("A", "B"), "target_absmix": ("A", "B"), "template": ("A", "B"), "template_wd": ("A", "B"), "map_none": ("tpl_0", "tpl_1"), "map_str": ("m_0", "m_1"), "map_func": ("f0", "f1")}[how]
+        names = {"target": ("A", "B"), "target_absmix": ("A", "B"), "template": ("A", "B"), "template_wd": ("A", "B"), "map_none": ("tpl_0", "tpl_1"), "map_str": ("m_0", "m_1"), "map_func": ("f0", "f1"), "glob_template_wd": ("A", "B")}[how]
         observations = {}
         for inv in INVOKE:
             objname = "flow" if inv == "objname" else "gwf"
@@ -270,6 +277,9 @@ CONTAINERS = {
 
 def path_values():
     vals = [("str", "x", True), ("str-dir", "d/x", True), ("str-abs", "/abs/x", True), ("str-space", "with space", True), ("str-unicode", "é", True),
+            # characters that mean something to a shell or to os.path helpers mean nothing here: plain file names under the working directory
+            ("str-tilde", "~/x", True), ("str-tilde-user", "~root/x", True), ("str-dollar", "$HOME/x", True), ("str-percent", "%s/x", True), ("str-glob", "*.txt", True),
+            ("Path-tilde", pathlib.PurePosixPath("~/x"), True),
             ("Path", pathlib.Path("d/x"), True), ("PurePath-abs", pathlib.PurePosixPath("/abs/x"), True), ("fspath", FsPath("d/y"), True),
             ("empty", "", False), ("None", None, False), ("int", 5, False), ("bytes", b"x", False), ("float", 1.5, False)]
     ctrl = [chr(c) for c in range(0, 32)] + ["\x7f"] + [chr(c) for c in range(0x80, 0xA0)]  # Unicode category Cc: C0, DEL and C1
